@@ -2007,6 +2007,14 @@ EGLPNUM_TYPENAME_QSLIB_INTERFACE int EGLPNUM_TYPENAME_QSwrite_basis (
 
 	if (B)
 	{
+		if (B->nstruct != p->qslp->nstruct || B->nrows != p->qslp->nrows)
+		{
+			QSlog("size of basis does not match lp");
+			rval = 1;
+			goto CLEANUP;
+		}
+		rval = check_basis_stats (B->nstruct, B->nrows, B->cstat, B->rstat);
+		CHECKRVALG (rval, CLEANUP);
 		rval = qsbasis_to_illbasis (B, &iB);
 		CHECKRVALG (rval, CLEANUP);
 		basis = &iB;
@@ -2028,7 +2036,8 @@ EGLPNUM_TYPENAME_QSLIB_INTERFACE int EGLPNUM_TYPENAME_QSwrite_basis (
 
 CLEANUP:
 
-	EGLPNUM_TYPENAME_ILLlp_basis_free (basis);
+	/* only the local conversion is ours to free, never the problem's basis */
+	EGLPNUM_TYPENAME_ILLlp_basis_free (&iB);
 	EG_RETURN (rval);
 }
 
